@@ -16,7 +16,7 @@ from .treebase import TreeObserver, leaf_value
 PID = "C08"
 LEVEL = "exploration"
 ENGINE = "ctxsim"
-REACH = ['tree:accept', 'tree:reject', 'arr:accept', 'fault_fired:node.flatten', 'fault_fired:leaf.instancecheck']  # counters (prefixes) that a healthy batch makes non-zero; gaps are reported in the evidence
+REACH = ['history_shadow_judged', 'tree:accept', 'tree:reject', 'arr:accept', 'fault_fired:node.flatten', 'fault_fired:leaf.instancecheck']  # counters (prefixes) that a healthy batch makes non-zero; gaps are reported in the evidence
 BUDGET = {"quick": 35, "thorough": 600}
 RULE = (
     "Seeded histories inside jaxtyped('context') blocks: 3-10 operations mixing array checks and PyTree checks "
